@@ -26,12 +26,19 @@ pub struct PullSocket {
 impl Socket for PullSocket {
     fn with_options(options: SocketOptions) -> Self {
         let fair_queue = FairQueue::new(true);
+        let backend = Arc::new(GenericSocketBackend::with_options(
+            Some(fair_queue.inner()),
+            SocketType::PULL,
+            options,
+        ));
+        let weak_backend = Arc::downgrade(&backend);
+        fair_queue.on_stream_end(move |peer_id| {
+            if let Some(backend) = weak_backend.upgrade() {
+                backend.peer_disconnected(peer_id);
+            }
+        });
         Self {
-            backend: Arc::new(GenericSocketBackend::with_options(
-                Some(fair_queue.inner()),
-                SocketType::PULL,
-                options,
-            )),
+            backend,
             fair_queue,
             binds: HashMap::new(),
         }
